@@ -151,6 +151,10 @@ def elementwise(I, op, a, b, node):
     if isinstance(op, ast.Pow) and (dt or "").startswith("inherit") and isinstance(vb, Expr) and not (vb.as_const() is not None and vb.as_const().re.denominator == 1 and vb.as_const().re >= 0):
         dt = "float"
     meta = merge_meta(I, a, b, node)
+    ga = a.meta.get("gen") if isinstance(a, Arr) else (lambda k, a=a: a) if isinstance(a, Expr) else None
+    gb = b.meta.get("gen") if isinstance(b, Arr) else (lambda k, b=b: b) if isinstance(b, Expr) else None
+    if ga is not None and gb is not None and shape is not None and len(shape) == 1 and (isinstance(a, Arr) or isinstance(b, Arr)):
+        meta["gen"] = lambda k, ga=ga, gb=gb, op=op, node=node: I.scalar_binop(op, ga(k), gb(k), node)
     if "lvl0" in meta:
         # level-0 override takes part in the same operation
         l0a = a.meta.get("lvl0", va) if isinstance(a, Arr) else va
@@ -321,6 +325,13 @@ def load(I, arr, idx, node, env):
         return Unknown("subscript of array with unknown shape")
     items = _expand_index(I, arr, idx, node)
     # 1-D parameter arrays: element atoms
+    if arr.ndim == 1 and len(items) == 1 and isinstance(items[0], SliceV) and not items[0].is_full() and items[0].step is None and (isinstance(arr, SymArr) or "gen" in arr.meta):
+        sl = items[0]
+        ln, lo = _slice_len(I, sl, arr.shape[0])
+        if isinstance(ln, Expr):
+            base = (lambda k, arr=arr: arr.at(k)) if isinstance(arr, SymArr) else arr.meta["gen"]
+            gen = lambda k, base=base, lo=lo: base(k + lo)
+            return Arr((ln,), gen(alg.fn("idx", ln, integer=True)), arr.dtype, {"gen": gen, "slice1d": (sl.lo, sl.hi, arr)})
     if isinstance(arr, SymArr) and arr.ndim == 1 and len(items) == 1:
         it = items[0]
         if isinstance(it, Expr):
@@ -426,6 +437,11 @@ def load(I, arr, idx, node, env):
             shape.append(alg.fn("count", alg.sym("mask:%s" % (it.meta.get("ident") or it.name or "?")), integer=True, pos=True))
             axis += it.ndim
             meta.pop("spec", None)
+        elif isinstance(it, Arr) and arr.ndim == 1 and "gen" in arr.meta and isinstance(it.val, Expr) and it.meta.get("perm") is None:
+            shape.extend(it.shape or ())
+            val = arr.meta["gen"](it.val)
+            meta.pop("gen", None)
+            axis += 1
         elif isinstance(it, Arr):
             # integer (fancy) index on one axis
             shape.extend(it.shape or ())
@@ -562,6 +578,12 @@ def store(I, arr, idx, v, node, env):
         ix = level[1]
         new.val = alg.fn("scatter", sv, ix.val) if isinstance(sv, Expr) and isinstance(ix.val, Expr) else Unknown("scatter")
         new.meta["scatter"] = ix
+    elif level[0] == "partial" and arr.ndim == 1 and isinstance(new.val, Expr) and new.val.is_zero() and const_int(level[1].lo) == 1 and level[1].hi is None and isinstance(v, Arr) and "gen" in v.meta and "slice1d" not in v.meta:
+        g = v.meta["gen"]
+        # element 0 stays zero, element k>0 is g(k-1); for prefix sums g(k-1) = sum_{j<k}, which is 0 at k = 0 as well
+        new.meta["gen"] = lambda k, g=g: g(k - ONE)
+        new.val = new.meta["gen"](alg.fn("idx", arr.shape[0], integer=True))
+        new.meta["partial_store"] = True
     elif level[0] in ("partial", "elem"):
         sl = v.meta.get("slice1d") if isinstance(v, Arr) else None
         tgt = level[1] if level[0] == "partial" else None
@@ -995,7 +1017,15 @@ def np_copy(I, args, kwargs, node):
 def np_diff(I, args, kwargs, node):
     x = args[0]
     if isinstance(x, Arr) and x.ndim == 1:
-        return Arr((x.shape[0] - ONE,), Unknown("generic element of diff"), "float", {"diff_of": x})
+        n1 = x.shape[0] - ONE
+        if isinstance(x, SymArr):
+            gen = lambda k, x=x: x.at(k + ONE) - x.at(k)
+            return Arr((n1,), gen(alg.fn("idx", n1, integer=True)), "float", {"diff_of": x, "gen": gen})
+        g = x.meta.get("gen")
+        if g is not None:
+            gen = lambda k, g=g: g(k + ONE) - g(k)
+            return Arr((n1,), gen(alg.fn("idx", n1, integer=True)), "float", {"gen": gen})
+        return Arr((n1,), Unknown("generic element of diff"), "float", {"diff_of": x})
     return Unknown("np.diff")
 
 
@@ -1277,7 +1307,13 @@ def np_sum(I, args, kwargs, node):
 def np_cumsum(I, args, kwargs, node):
     x = args[0]
     if isinstance(x, Arr) and isinstance(x.val, Expr):
-        return Arr(x.shape, alg.fn("cumsum", x.val), x.dtype, {"cumsum_of": x, "param_derived": x.meta.get("param_derived")})
+        m = {"cumsum_of": x, "param_derived": x.meta.get("param_derived")}
+        g = x.meta.get("gen")
+        if g is not None and x.ndim == 1:
+            from interp import psum
+            iv = alg.sym_atom("j#cumsum", integer=True)
+            m["gen"] = lambda k, g=g, iv=iv: psum(g(alg.atom_expr(iv)), iv, ZERO, k + ONE)  # inclusive prefix sum
+        return Arr(x.shape, alg.fn("cumsum", x.val), x.dtype, m)
     return Unknown("np.cumsum")
 
 
